@@ -19,13 +19,16 @@ CONFIG = {
     "id": "C02",
     "rule": ("the C01 stream (documents x paths of the fragment, both notations) plus documents whose keys contain "
              "every character the path syntax escapes (. / [ ] ( ) ' \" space ^ $ % \\\\ & and leading /), anchors and "
-             "aliases; every result of every required query is checked.  non-trivial = some result was checked; "
+             "aliases, 80 edge-shaped keys (blank-edged, numeric-looking, bracket-led, operators, quotes, back-slashes) "
+             "each at four positions with siblings and below [parent()] / [has_child()] segments, and seeded random keys "
+             "over the punctuation alphabet; every result of every required query is checked.  non-trivial = some result was checked; "
              "distinct = distinct (document, path list)."),
     "trusted_base": [
         "modelled, not verified: yamlpath/processor.py 811-2627 (coordinates built by every handler), "
         "wrappers/nodecoords.py, YAMLPath.__add__/append/escape_path_section",
         "re-resolution of reported paths runs on the real code only (the model side compares the reported path as "
-        "parsed segments); keyword-search results (has_child, parent, ...) are another module's",
+        "parsed segments); keyword-search results are generated here only for [parent()] / [has_child()] over the "
+        "edge-key documents, the keyword handlers themselves are C13's / C15's",
     ],
     "assumptions": [
         "the model is the code only as far as the correspondence run shows",
@@ -235,8 +238,14 @@ def located_results(ld, paths, limit):
     return out
 
 
+_EDGE_DOCS = []
+
+
 def pb_limit(case):
-    return None if case[0] in ESC_DOCS or case[0] in KEY_DOCS else 2
+    """every result of the escapable-key, guard-stress and edge-key documents (short texts), two of any other case"""
+    if not _EDGE_DOCS:
+        _EDGE_DOCS.append(set(d for d, _ in edge_cases()))
+    return None if case[0] in ESC_DOCS or case[0] in KEY_DOCS or case[0] in _EDGE_DOCS[0] else 2
 
 
 def pb_requests(ld, case):
@@ -363,26 +372,6 @@ def check_result(ld, nc, path):
     return None
 
 
-def odd_ref(r):
-    """a key / member the reported path cannot name: not a string, empty, numeric-looking, with a leading
-    separator or anchor mark, blank at either end, or containing a wildcard"""
-    if not isinstance(r, str):
-        return not isinstance(r, int) or isinstance(r, bool)
-    return (r == "" or r.lstrip("+-").replace("_", "").isdigit() or r[0] in "/&" or r != r.strip()
-            or "*" in r or r[0] in "([" or "\\" in r)
-
-
-def odd_along(nc):
-    for (a, r) in nc.ancestry:
-        if isinstance(a, dict):
-            if odd_ref(r) or (isinstance(r, int) and not isinstance(r, bool) and str(r) in a):
-                return True
-        elif ec.docenc.is_set(a):
-            if odd_ref(r) or not isinstance(r, str):     # a set member is only ever compared with the key TEXT
-                return True
-    return False
-
-
 def observe(case):
     doc, paths = case
     obs = ec.observe(case)
@@ -400,9 +389,10 @@ def observe(case):
         for nc in res:
             checked += 1
             r = check_result(ld, nc, p)
-            if r is not None:
+            if r is not None and len(fails) < 60:
+                # every failing result counts (no stopping at the first one of a path: a result that a listed
+                # finding explains must not hide a later one that nothing explains)
                 fails.append(r)
-                break
     _FAIL[(doc, tuple(paths))] = (fails, checked)
     return obs + pb_observe(ec.LoadedDoc(doc), case)
 
@@ -416,13 +406,20 @@ def _fails(case, obs):
 
 def judge(case, obs):
     fails, _ = _fails(case, obs)
+    for msg, kind in fails:
+        if kind is None:
+            return msg            # name a failure no listed finding's condition covers, when there is one
     return fails[0][0] if fails else None
 
 
 def f_escape(case, obs):
     """every failure of the case is a reported path that does not resolve back, and the path to that result goes
-    through a key or set member that is not a string, is empty, looks like a number, starts with a separator
-    '/', an anchor mark '&' or an opening bracket, has blanks at either end, contains '*' or a backslash"""
+    through a key or set member for which the mirrored guard py_safe (= PathBuild.pb_safe, the guard of
+    C02_reported_path_canonical_partial) is false in the notation that failed: what escape_path_section cannot
+    protect today.  (Branch `judges` had narrowed the older hand-written class list `odd_ref` to the keys that
+    fail today; compared on 73 204 results with py_safe and the real re-query, the list was still too wide - a
+    back-slash before ) ^ $ % and before the OTHER notation's separator resolves correctly - while no result
+    that resolves wrongly had py_safe true, so py_safe is the only rule and the list is gone.)"""
     fails, _ = _fails(case, obs)
     return bool(fails) and all(k is not None for _, k in fails) and any(k == "escape" for _, k in fails)
 
@@ -455,10 +452,93 @@ def corpus_chunks():
            ("[ab, {a: -1}, 1]", ["[-9:1][.=ab]", "[0:2][.=ab]", "[1:3][.=1]"])]
 
 
+# keys of every escapable / syntactically meaningful shape, each in its own small documents (top level, below a
+# key, below a list element, as a set member; always with siblings, so that a path re-read as a wildcard or as
+# another key shows) - single cases, a failing one is a minimal replay
+EDGE_KEYS = ["sp ", " sp", " both ", " ", "  ", "a b", "a  b ", "", "1", "-1", "+1", "1_0", "01", "1.5", "/lead", "tr/",
+             "//", "&d", "a&b", "*", "a*", "*a", "**", "[x", "x[", "(y", "y(", "]", ")", "[0]", "(a)", "back\\slash",
+             "\\", "a\\", "\\a", "a\\.b", "a\\/b", "a\\\\b", "a\\ b", "a\\[", "a.b", "a/b", ".dot", "dot.", "'q",
+             "q'", "'q'", '"q', 'q"', "=", "!", "a=b", "a!b", "~", "<", ">", ",", ":", "^a", "a^", "a$", "$a", "%", "a%b",
+             "true", "null", "{", "}", "#", "@", "0", "x y z", "\t", "\ta", "a\t", "a\tb", " \t", "\n", " .", ". ", "a. b", "[ ]",
+             "é "]
+
+
+def yq(k):
+    """a key text as a YAML double-quoted scalar"""
+    import json
+    return json.dumps(k, ensure_ascii=False)
+
+
+def path_parses(k):
+    """the path text the library reports for key k parses at all.  Keys for which it does not (a back-slash in
+    front of a bracket, parenthesis or quote: the escaper takes the pair for an escape it already made and the
+    demarcation stays open) are kept out of the generated stream: model and implementation agree on them - both
+    report a YAML Path error for the reported path - but the shared comparison does not canonicalise an error
+    family nested inside a result line, so the lines differ in spelling only."""
+    try:
+        from yamlpath import YAMLPath
+        from yamlpath.enums import PathSeparators
+        for sep in (PathSeparators.DOT, PathSeparators.FSLASH):
+            list(YAMLPath(YAMLPath.escape_path_section(k, sep))._parse_path(True))
+        return True
+    except Exception:  # noqa
+        return False
+
+
+def edge_cases():
+    for k in EDGE_KEYS:
+        if not path_parses(k):
+            continue
+        q = yq(k)
+        yield ("{zz: 6, %s: 5}" % q, ["*"])
+        yield ("{zz: 6, %s: 5, a1: 7}" % q, ["/*", "**"])
+        yield ("{zz: {x: 6}, %s: {x: 5, %s: 4}, a1: {x: 7}}" % (q, q), ["*.x", "**", "/*/*"])
+        yield ("{o: {zz: 6, %s: 5, a1: 7}}" % q, ["o.*", "/o/*", "**"])
+        yield ("[{zz: 6, %s: [5, {%s: 4}], a1: 7}]" % (q, q), ["[0].*", "**", "*.*[0]"])
+        yield ("s: !!set\n  ? zz\n  ? %s\n  ? a1\n" % q, ["s.*", "**"])
+        # keyword segments below / at the key (the evaluator model answers them since branch evalkw): [parent()]
+        # reports a path made by POPPING the last segment of the child's reported path, [has_child()] relays it
+        yield ("{zz: {x: 6}, %s: {x: 5, y: {x: 4}}}" % q,
+               ["*.x[parent()]", "/*/x[parent()]", "**[parent()]", "*.y.x[parent(2)]", "*[has_child(x)]",
+                straight_text([k, "x"], "dot") + "[parent()]", straight_text([k, "y", "x"], "slash") + "[parent()][parent()]"])
+
+
+KEY_ALPHABET = "aab1 ./\\[]()'\"^$%&*=!~<>,:{}#-+_ "
+
+
+def random_key(rng):
+    while True:
+        n = rng.choice([1, 1, 2, 2, 3, 4])
+        k = "".join(rng.choice(KEY_ALPHABET) for _ in range(n))
+        if path_parses(k):
+            return k
+
+
+def random_key_doc(rng, depth=0):
+    r = rng.random()
+    if depth >= 3 or r < 0.3:
+        return rng.choice(["1", "x", "null", "'y z'"])
+    if r < 0.8:
+        ks = []
+        for _ in range(rng.randint(1, 3)):
+            k = random_key(rng)
+            if k not in ks:
+                ks.append(k)
+        return "{" + ", ".join("%s: %s" % (yq(k), random_key_doc(rng, depth + 1)) for k in ks) + "}"
+    return "[" + ", ".join(random_key_doc(rng, depth + 1) for _ in range(rng.randint(1, 2))) + "]"
+
+
 def chunks(tier, seed):
     thorough = tier == "thorough"
+    rng = random.Random(seed * 7 + 2)
 
     def gen():
+        for c in edge_cases():
+            yield c
+        for _ in range(4000 if thorough else 500):
+            d = random_key_doc(rng)
+            if d[0] in "{[":
+                yield (d, ["**", "*", "*.*", "/**"])
         for i, d in enumerate(ESC_DOCS):
             yield (d, ESC_PATHS + straight_paths("E", i))
         for i, d in enumerate(KEY_DOCS):
